@@ -91,6 +91,40 @@ def i1(prog, rep):
                   "escrow-put-operands", f"new escrow stored as {a[1:]}", c.where())
 
 
+def is_source_table(prog, rep, rule="I2"):
+    """The outgoing withdrawal's source-zone decision, evaluated symbolically over its atoms:
+    is_source == TracePrefixed && !(leading port && leading channel) - the negation of the
+    receive-side predicate, so that what is escrowed on the way out is exactly what a refund or
+    a returning packet releases (shared with C01-L3 IBC-OUT)."""
+    b = prog.main_body(S + "checked_actions::ics20_withdrawal::is_source")
+    denom = prog.adts.get("astria_core::primitive::v1::asset::denom::Denom")
+    tp = None
+    if denom:
+        tp = [i for i, v in enumerate(denom["variants"]) if v[0] == "TracePrefixed"]
+    tp = tp[0] if tp else 0
+
+    def exp(f):
+        d = f.get("disc:asset")
+        if d is None:
+            return None
+        if d != tp:
+            return False
+        return not (f["P"] and f["C"])
+    tbl = bool_fn_table(b, atom)
+    ok, why = table_matches(tbl, exp, ["P", "C"])
+    has_disc = bool(tbl) and any("disc:asset" in a for a, _ in tbl)
+    rep.check(ok and has_disc, rule, "table:is_source=Trace&!(P&C)",
+              f"withdrawal is_source is not `TracePrefixed && !(leading port && leading channel)`"
+              f" (must equal the refund predicate): {why}", b.describe(), detail=why)
+    for c in b.calls:
+        if atom(c) in ("P", "C"):
+            a = [b.root(x) for x in c.args]
+            want = "source_port" if atom(c) == "P" else "source_channel"
+            rep.check(a[1] == want and "asset" in a[0], rule, f"atoms:is_source:{atom(c)}",
+                      f"{short_name(c.callee)} applied to {a}", c.where())
+
+
+
 def i2(prog, rep):
     # --- truth tables
     b = prog.main_body(ICS + "is_transfer_source_zone")
@@ -114,32 +148,7 @@ def i2(prog, rep):
             a = [b.root(x) for x in c.args]
             rep.check(a == ["asset", "port", "channel"], "I2", "atoms:is_refund_source_zone",
                       f"is_transfer_source_zone applied to {a}", c.where())
-    b = prog.main_body(S + "checked_actions::ics20_withdrawal::is_source")
-    denom = prog.adts.get("astria_core::primitive::v1::asset::denom::Denom")
-    tp = None
-    if denom:
-        tp = [i for i, v in enumerate(denom["variants"]) if v[0] == "TracePrefixed"]
-    tp = tp[0] if tp else 0
-
-    def exp(f):
-        d = f.get("disc:asset")
-        if d is None:
-            return None
-        if d != tp:
-            return False
-        return not (f["P"] and f["C"])
-    tbl = bool_fn_table(b, atom)
-    ok, why = table_matches(tbl, exp, ["P", "C"])
-    has_disc = bool(tbl) and any("disc:asset" in a for a, _ in tbl)
-    rep.check(ok and has_disc, "I2", "table:is_source=Trace&!(P&C)",
-              f"withdrawal is_source is not `TracePrefixed && !(leading port && leading channel)`"
-              f" (must equal the refund predicate): {why}", b.describe(), detail=why)
-    for c in b.calls:
-        if atom(c) in ("P", "C"):
-            a = [b.root(x) for x in c.args]
-            want = "source_port" if atom(c) == "P" else "source_channel"
-            rep.check(a[1] == want and "asset" in a[0], "I2", f"atoms:is_source:{atom(c)}",
-                      f"{short_name(c.callee)} applied to {a}", c.where())
+    is_source_table(prog, rep, "I2")
 
     # --- receive leg
     b = prog.main_body(ICS + "receive_tokens")
